@@ -220,8 +220,12 @@ inline Named make_name(const void* self, char kind)
         }
         n.name = intern(r->cls + "." + raw);
     } else {
+        // objects outside any registered region (heap, statics): numbered in creation order, aliasable as class "anon"
         int k = ++g_rt->instCounter[std::string("anon.") + kind];
-        n.name = intern(std::string("anon.") + kind + std::to_string(k));
+        std::string raw2 = std::string(1, kind) + std::to_string(k);
+        auto ai = g_rt->aliases.find("anon");
+        if (ai != g_rt->aliases.end() && ai->second.count(raw2)) n.name = intern(ai->second[raw2]);
+        else n.name = intern(std::string("anon.") + raw2);
     }
     return n;
 }
